@@ -79,6 +79,9 @@ RECURSIVE FuncOf(_, _)
 FuncOf(p, s) ==
   IF s = 0 THEN 0
   ELSE IF Kind(p, s) \in ParamKinds THEN s
+  \* the own name of a named function expression is a name of THAT function (visible only inside it), not of the
+  \* function around it: its scope wraps exactly one parameter scope
+  ELSE IF Kind(p, s) = "fname" THEN CHOOSE c \in DOMAIN p.scopes : Parent(p, c) = s /\ Kind(p, c) \in ParamKinds
   ELSE FuncOf(p, Parent(p, s))
 
 \* functions whose own code (not a nested function's) contains a with statement
